@@ -124,7 +124,11 @@ def run_proofs(res, cfg):
     wanted = re.findall(r"^#print axioms\s+(\S+)", open(apath).read(), flags=re.M)
     res.obligations = len(wanted)
     if rc == 0:
-        rc2, out2 = sh(["lake", "env", "lean", apath], cwd=LEAN, timeout=1800)
+        # lake replays the stored log of an up-to-date module, so the `#print axioms` output is
+        # available without re-elaborating; fall back to running lean on the file directly
+        rc2, out2 = sh(["lake", "build", audit], cwd=LEAN, timeout=1800)
+        if "depends on axioms" not in out2 and "does not depend on any axioms" not in out2:
+            rc2, out2 = sh(["lake", "env", "lean", apath], cwd=LEAN, timeout=1800)
         got = {}
         for m in re.finditer(r"'([^']+)' depends on axioms: \[([^\]]*)\]", out2):
             got[m.group(1)] = {a.strip() for a in m.group(2).replace("\n", " ").split(",") if a.strip()}
